@@ -66,9 +66,9 @@ func runMeta(c *Ctx) {
 		toks   []string
 		alen   int
 	}
-	tiers := []tier{{leavesFull, size, toks, alen}}
+	tiers := []tier{{leavesFull, size, toks, alen}, {leavesNest, 4, []string{"x", "-a", "--"}, 3}}
 	if c.Thorough() {
-		tiers = []tier{{leavesFull, 3, tokMeta, 3}, {leavesFull, 3, tokMetaSm, 4}, {leavesMid, 4, tokMetaSm, 3}}
+		tiers = []tier{{leavesFull, 3, tokMeta, 3}, {leavesFull, 3, tokMetaSm, 4}, {leavesMid, 4, tokMetaSm, 3}, {leavesNest, 5, []string{"x", "-a", "--", "-"}, 3}}
 	}
 	idx := 0
 	var asLang []langTier
@@ -95,7 +95,8 @@ func runMeta(c *Ctx) {
 					continue
 				}
 				if withEnd {
-					if c.On("C09") && ti == 0 {
+					// part 2 of C09, once per spec (a spec of an earlier tier is not repeated)
+					if c.On("C09") && len(newCoverage(asLang[:ti], spec, n, false).toks) == 0 {
 						metaEndSpecs(c, d, spec)
 					}
 					continue
@@ -235,6 +236,61 @@ func metaC11(c *Ctx, t *outcomeTable, argvs [][]string, rd []ref.Reading) {
 		r := rd[i]
 		if r.Malformed {
 			continue
+		}
+		// units: all occurrences written in one token (a fold, with its separate value if any) move together;
+		// swapping two adjacent units with disjoint option sets is a composition of swaps of different options
+		type unit struct {
+			tok, ntok int
+			opts      map[int]bool
+			fold      bool
+		}
+		var units []unit
+		for k := 0; k < len(r.Items); k++ {
+			it := r.Items[k]
+			if it.Kind != ref.ItOcc {
+				units = append(units, unit{tok: -1})
+				continue
+			}
+			if n := len(units); n > 0 && units[n-1].tok == it.Tok {
+				units[n-1].opts[it.Opt] = true
+				units[n-1].fold = true
+				if it.NTok > units[n-1].ntok {
+					units[n-1].ntok = it.NTok
+				}
+				continue
+			}
+			units = append(units, unit{tok: it.Tok, ntok: it.NTok, opts: map[int]bool{it.Opt: true}})
+		}
+		for k := 0; k+1 < len(units); k++ {
+			a, b := units[k], units[k+1]
+			if a.tok < 0 || b.tok < 0 || !(a.fold || b.fold) {
+				continue // single occurrences are handled below
+			}
+			disjoint := true
+			for o := range a.opts {
+				if b.opts[o] {
+					disjoint = false
+				}
+			}
+			if !disjoint {
+				continue
+			}
+			var w []string
+			w = append(w, argv[:a.tok]...)
+			w = append(w, argv[b.tok:b.tok+b.ntok]...)
+			w = append(w, argv[a.tok:a.tok+a.ntok]...)
+			w = append(w, argv[b.tok+b.ntok:]...)
+			c.Beat()
+			base, got := t.of(argv), t.of(w)
+			c.Count("C11:evaluations", 1)
+			c.Count("C11:fold_unit_swaps", 1)
+			if base != "R" || got != "R" {
+				c.Count("C11:nontrivial", 1)
+			}
+			if base != got {
+				c.Violation("C11", metaKey(t.spec, argv, w), Case{"spec": t.spec, "argv": argv, "argv2": w, "rel": "C11"},
+					"same outcome after moving a folded token past an adjacent occurrence of a different option: "+base, got)
+			}
 		}
 		for k := 0; k+1 < len(r.Items); k++ {
 			a, b := r.Items[k], r.Items[k+1]
